@@ -78,7 +78,7 @@ func c10body(t byte, n int) ([]byte, bool) {
 	return nil, false
 }
 
-func (ch c10) cases(L int) []c10case {
+func (ch c10) cases(L int, thorough bool) []c10case {
 	eff := L
 	if eff <= 0 {
 		eff = 1 << 24
@@ -89,6 +89,9 @@ func (ch c10) cases(L int) []c10case {
 	}
 	l := int64(eff)
 	sizes := []sz{{0, "0"}, {1, "1"}, {l - 1, "L-1"}, {l, "L"}, {l + 1, "L+1"}, {l + 2, "L+2"}, {2*l - 1, "2L-1"}, {2 * l, "2L"}, {2*l + 1, "2L+1"}, {3*l + 7, "3L+7"}, {10*l + 1, "10L+1"}}
+	if thorough && eff < 1<<24 {
+		sizes = append(sizes, sz{2, "2"}, sz{l - 2, "L-2"}, sz{l + 3, "L+3"}, sz{3 * l, "3L"}, sz{4*l - 1, "4L-1"}, sz{4 * l, "4L"}, sz{4*l + 1, "4L+1"}, sz{5*l + 5, "5L+5"}, sz{l / 2, "L/2"}, sz{l + l/2, "1.5L"})
+	}
 	var out []c10case
 	types := []byte("QPBDECHSdcfp") // + unknown
 	types = append(types, 'F')
@@ -124,7 +127,7 @@ func (ch c10) Run(c *core.Ctx) {
 	core.AllocSanitizerOn()
 	L := c10limits[c.Batch%len(c10limits)]
 	part, parts := c.Batch/len(c10limits), ch.Batches(c.Tier)/len(c10limits)
-	all := ch.cases(L)
+	all := ch.cases(L, c.Tier == "thorough")
 	eff := L
 	if eff <= 0 {
 		eff = 1 << 24
